@@ -97,7 +97,7 @@ def sgr_default():
 def run(ctx):
     ctx.assumptions += ['printable objects: pretty-printed value, two tables sharing one enum field type (wide and narrow '
                         'columns, all modifiers), record formatter, h-doc help text, an object whose rendering starts with '
-                        'an empty line; the git history report is rendered in the C06 driver',
+                        'an empty line, the git history report of two mock repositories',
                         'colour equality is compared on painted cells (character + terminal state), not on raw escape strings',
                         'reference outputs come from one fresh interpreter per (object, configuration content, no_color)']
     kinds = c10_objs.KINDS
